@@ -23,16 +23,20 @@ FILES = [
 REQUIRED_THEOREMS = [
     "C09_purity", "C09_purity_pure", "C09_purity_mixed", "C09_purity_real_pos", "C09_purity_le_one", "C09_renyi_nonneg",
     "C09_pure_is_state", "C09_pure_symmetric", "C09_pure_trivial", "C09_pairing", "C09_no_mutation", "C09_region",
+    # audit round: the RBM density matrix is a state (C02) -> Renyi-2 >= 0 for mixed states
+    "C09_mixed_is_state", "C09_purity_mixed_rbm", "C09_purity_pos_mixed_rbm", "C09_renyi_nonneg_mixed_rbm", "C09_empty_region",
 ]
 THEOREMS = {
     "apply": "C09_purity (+ C09_no_mutation: run = per-pair value on (samples[i], samples[(i-1) mod B]); C09_region)",
     "after": "C09_no_mutation",
     "pairing": "C09_pairing",
-    "nonneg": "C09_renyi_nonneg / C09_purity_le_one",
+    "nonneg": "C09_renyi_nonneg / C09_purity_le_one (pure: C09_pure_is_state; mixed: C09_renyi_nonneg_mixed_rbm under C02's guard NZ, "
+              "C09_purity_pos_mixed_rbm without)",
     "sym": "C09_pure_symmetric",
     "trivial": "C09_pure_trivial",
 }
-RULE = ("case = (state kind pos/cplx/dens, n<=3 quick / <=4 thorough, h, [a], scale in {0.3,1,2}, parameters all non-zero, region A, "
+RULE = ("case = (state kind pos/cplx/dens, n<=4 (quick: n = 1,2,3 with every region + one n = 4 state of each kind with the empty, the full, "
+        "a random proper region and its complement; thorough: n = 4 with every region), h, [a], scale in {0.3,1,2}, parameters all non-zero, region A, "
         "argument form, batch); for every subset A of sites: all two-row batches over unordered pairs of basis states (each gives both "
         "ordered pairs) with A as a list, one Eulerian batch of length 4^n whose cyclic neighbours cover every ordered pair once, and "
         "random batches (size 1..9, repeated rows; contiguous / strided-view / transposed memory layout) and Eulerian batches with A in every "
@@ -237,7 +241,8 @@ def one_apply(ctx, st, base, form, region_list, samples, level="property", regis
     return vals
 
 
-def one_state(ctx, kind, n, h, a, scale, am, ph, thorough):
+def one_state(ctx, kind, n, h, a, scale, am, ph, thorough, regions=None):
+    """`regions`: the list of regions to run (default: every subset of the sites)"""
     base = {"kind": kind, "n": n, "h": h, "a": a, "scale": scale, "am": am, "ph": ph}
     st = build_state(kind, n, h, a, am, ph)
     rng = ctx.rng
@@ -247,8 +252,16 @@ def one_state(ctx, kind, n, h, a, scale, am, ph, thorough):
     Z = float(st.normalization(space_t))
     p = st.probability(space_t, Z).detach().numpy()
     R = rho_hat(st, kind, n)
+    if kind == "dens":
+        # which side of the hypothesis of C09_renyi_nonneg_mixed_rbm the case lies on: C02_NZ_of_phase_weights_small (sum_j |U_mu kj| < 2 pi
+        # for every auxiliary unit) is sufficient for the guard NZ; the oracle below is evaluated on the implementation either way
+        import math
+        ctx.count("dens:NZ_guard_sufficient_condition=" + str(all(sum(abs(x) for x in row) < 2 * math.pi for row in ph["U"])))
     est = {}
     subsets = [list(c) for k in range(n + 1) for c in itertools.combinations(range(n), k)]
+    if regions is not None:
+        subsets = [sorted(A) for A in regions]
+        ctx.count(f"region_subset_of_n={n}")
     eul = [states[k] for k in euler_sequence(N)]
     eul_idx = euler_sequence(N)
     for A in subsets:
@@ -317,6 +330,8 @@ def one_state(ctx, kind, n, h, a, scale, am, ph, thorough):
     if kind != "dens":
         for A in subsets:
             comp = tuple(j for j in range(n) if j not in A)
+            if comp not in est:
+                continue
             ctx.oracle("pure state: estimator average of A equals that of its complement",
                        abs(est[tuple(A)] - est[comp]) <= 1e-8 * (1 + abs(est[comp])), {**case0, "region": list(A)},
                        detail={"A": est[tuple(A)], "complement": est[comp]}, sig=f"{kind}/swap/symmetric", theorem=THEOREMS["sym"])
@@ -431,6 +446,20 @@ def gen_states(ctx, thorough):
                 am = qc.rand_rbm_params(rng, n, h, scale)
                 ph = qc.rand_rbm_params(rng, n, h, scale) if kind == "cplx" else None
             yield kind, n, h, a, scale, am, ph
+    if not thorough:
+        # n = 4 (the upper end of the property's quantifier) in the quick tier: one state of each kind with the empty and
+        # the full region, a random proper region and its complement (all ordered pairs of the 16 basis states for each of them)
+        n, h = 4, 2
+        for kind in ("pos", "cplx", "dens"):
+            scale = rng.choice(scales)
+            a = rng.choice([1, 2]) if kind == "dens" else 0
+            if kind == "dens":
+                am, ph = qc.rand_prbm_params(rng, n, h, a, scale), qc.rand_prbm_params(rng, n, h, a, scale)
+            else:
+                am = qc.rand_rbm_params(rng, n, h, scale)
+                ph = qc.rand_rbm_params(rng, n, h, scale) if kind == "cplx" else None
+            A = sorted(rng.sample(range(n), rng.randrange(1, n)))
+            yield kind, n, h, a, scale, am, ph, [[], list(range(n)), A, [j for j in range(n) if j not in A]]
     # large unnormalised probabilities: every |psi|^2 (rho diagonal) is finite but the
     # product of two of them is not, so the estimator must divide pair by pair.
     for kind in ("pos", "cplx", "dens"):
@@ -451,7 +480,7 @@ def run(ctx):
     ctx.rule = RULE
     thorough = ctx.tier == "thorough"
     for args in gen_states(ctx, thorough):
-        one_state(ctx, *args, thorough)
+        one_state(ctx, *args[:7], thorough, regions=(args[7] if len(args) > 7 else None))
 
 
 def search(ctx):
